@@ -257,7 +257,7 @@ def step(ctx, st, op, H):
             s_arg, e_arg = np.int64(s), np.int64(e)
         old = [np.array(x) for x in sample_arrays(rec, H)]
         exc = None
-        if op.get("fault") and os.environ.get("VERIF_TRIM_FAULTS", "0") != "0":
+        if op.get("fault") and os.environ.get("VERIF_TRIM_FAULTS", "1") != "0":
             real_trim, calls = H.TimeSeries.trim, [0]
 
             def failing_trim(self_, *a_, **k_):
